@@ -19,9 +19,9 @@ import (
 // router:
 //
 //   phase 0  initial configuration      (vh<i>: prefix /p -> vh<i>)
-//   phase 1  after AddRoute(T, prefix /q -> add)
+//   phase 1  after AddRoute(T, prefix / -> add)   (appended: /p still goes to vh<T>, /q to add)
 //   phase 2  after RemoveAllRoutes(T)
-//   phase 3  after AddRoute(T, prefix /q -> add) again
+//   phase 3  after AddRoute(T, prefix / -> add) again
 //
 // In every phase every (Host, path in {/p,/q}) lookup is made twice and both
 // results must equal the reference result for the configuration of that phase:
@@ -134,7 +134,9 @@ func c04CheckPurity(p *vreport.Part, c c04PurityCase) {
 	for i := range c.VHosts {
 		model[i] = []c04ModelRoute{{c04Rule{Kind: "prefix", Pattern: "/p"}, fmt.Sprintf("vh%d", i)}}
 	}
-	addRule := c04Rule{Kind: "prefix", Pattern: "/q"}
+	// the added rule overlaps the existing one (prefix / covers /p): configuration order
+	// decides, so an update that does not append at the END of the list is visible
+	addRule := c04Rule{Kind: "prefix", Pattern: "/"}
 	dom := c.VHosts[c.Target][0]
 	phases := []string{"initial", "AddRoute", "RemoveAllRoutes", "AddRoute following RemoveAllRoutes"}
 	badInitially := map[string]bool{}
@@ -184,18 +186,32 @@ func c04CheckPurity(p *vreport.Part, c c04PurityCase) {
 						p.Violation("purity: repeated lookup gives a different result",
 							fmt.Sprintf("%s: first %q then %q", where, first, got), c)
 					}
-					if len(all) > 1 || (len(all) == 1) != (got != "") || (len(all) == 1 && all[0] != got) {
-						p.Violation("purity: MatchAllRoutes disagrees with MatchRoute",
-							fmt.Sprintf("%s: MatchRoute %q MatchAllRoutes %v", where, got, all), c)
-					}
 					if c04StrIn(adm, got) {
+						// MatchAllRoutes: exactly the rules of the selected virtual host that hold, in
+						// configuration order (the rules of this part have no undecided verdicts)
+						if refVH != -2 && !badInitially[hv] {
+							var wantAll []string
+							if refVH >= 0 {
+								for _, mr := range model[refVH] {
+									if c04RefRule(mr.rule, q) == c04Yes {
+										wantAll = append(wantAll, mr.cluster)
+									}
+								}
+							}
+							if fmt.Sprint(all) != fmt.Sprint(wantAll) {
+								p.Violation("purity: MatchAllRoutes differs from the reference for the current configuration (phase "+phName+")",
+									fmt.Sprintf("%s: expected %v, got %v (MatchRoute %q)", where, wantAll, all, got), c)
+							}
+						}
 						continue
 					}
 					if ph == 0 {
-						badInitially[hv+"|"+path] = true // precedence defect, reported by part 1
+						// precedence defect, reported by part 1 (with /p every virtual host answers
+						// with its own cluster, so a wrongly selected virtual host always shows here)
+						badInitially[hv] = true
 						continue
 					}
-					if badInitially[hv+"|"+path] {
+					if badInitially[hv] {
 						continue
 					}
 					which := "a lookup that selects ANOTHER virtual host"
@@ -306,10 +322,10 @@ func TestVerifC04PurityOtherRouter(t *testing.T) {
 							continue
 						}
 						if si == 0 {
-							badInitially[hv+"|"+path] = true // precedence defect, reported by part 1
+							badInitially[hv] = true // precedence defect, reported by part 1
 							continue
 						}
-						if badInitially[hv+"|"+path] {
+						if badInitially[hv] {
 							continue
 						}
 						p.Violation("purity: lookup on router A after "+st.name+" differs from the reference for A's configuration",
